@@ -170,6 +170,7 @@ type c13Case struct {
 	pre      []c13Pre // non-nil: EvaluateFromPowerBasis on a basis filled by these steps
 	ctor     int       // bgv: 1 bgvpoly.NewPolynomial[uint64] / NewPolynomialVector[uint64], 2 the same on int64 (a negative
 	// coefficient c stands for c mod t); 0: bignum.NewPolynomial on float64 coefficients (exact below 2^53 only)
+	rawU     [][]uint64 // ctor = 1, non-nil: the coefficients handed to the constructor (polys = rawU mod t)
 	pflags   [][2]bool // non-nil (vectors): the (IsOdd, IsEven) flags of every polynomial, each describing ITS coefficients
 }
 
@@ -227,6 +228,9 @@ func (x *c13Ctx) describe(cs *c13Case) string {
 	}
 	if cs.ctor != 0 {
 		fmt.Fprintf(&sb, " ctor=%d", cs.ctor)
+		if cs.rawU != nil {
+			fmt.Fprintf(&sb, " rawu=%d", cs.rawU[0][0])
+		}
 	}
 	if cs.pflags != nil {
 		parts := make([]string, len(cs.pflags))
@@ -310,6 +314,13 @@ func (x *c13Ctx) refMod(p []int64, v int64) int64 {
 	return int64(r)
 }
 
+func (cs *c13Case) u64poly(i int) []uint64 {
+	if cs.rawU != nil {
+		return cs.rawU[i]
+	}
+	return c13U64(cs.polys[i])
+}
+
 func c13U64(p []int64) []uint64 {
 	u := make([]uint64, len(p))
 	for i := range p {
@@ -363,7 +374,7 @@ func (x *c13Ctx) runCase(c *Ctx, cs *c13Case) {
 			if cs.mapping == nil {
 				var p bgvpoly.Polynomial
 				if cs.ctor == 1 {
-					p = bgvpoly.NewPolynomial(c13U64(cs.polys[0]))
+					p = bgvpoly.NewPolynomial(cs.u64poly(0))
 				} else {
 					p = bgvpoly.NewPolynomial(cs.polys[0])
 				}
@@ -379,7 +390,7 @@ func (x *c13Ctx) runCase(c *Ctx, cs *c13Case) {
 			if cs.ctor == 1 {
 				us := make([][]uint64, len(cs.polys))
 				for i := range us {
-					us[i] = c13U64(cs.polys[i])
+					us[i] = cs.u64poly(i)
 				}
 				pv, e = bgvpoly.NewPolynomialVector(us, m)
 			} else {
@@ -802,6 +813,7 @@ func (x *c13Ctx) sc(c *Ctx) uint64 {
 
 func genC13(c *Ctx) {
 	c13Pure(c)
+	c13Tables(c)
 	c13BigT(c)
 	c13LazyHighDegrees(c)
 	c13Mod1(c)
@@ -870,6 +882,7 @@ func genC13(c *Ctx) {
 			}
 			c13Sequences(c, x)
 			c13MixedParity(c, x)
+			c13IntCoeffs(c, x)
 			c13GenPower(c, x)
 			c13Extensions(c, x)
 			if scheme == "ckks" {
@@ -1271,6 +1284,63 @@ func c13LazyHighDegrees(c *Ctx) {
 					c.Count(fmt.Sprintf("lazy-high-degree:%s:lazy%d", scheme, b2i(lazy)))
 					x.runCase(c, cs)
 				}
+			}
+		}
+	}
+}
+
+// c13IntCoeffs: bgv polynomials (t = 65537) through the bgv wrappers with coefficients that are NOT reduced
+// representatives: int64 with |c| in {t, t+1, 2t+3, 70000, 2^62, ...} of both signs, uint64 up to 2^64-1; single
+// polynomials and vectors, lazy and not.  c stands for c mod t: every slot compared exactly.
+func c13IntCoeffs(c *Ctx, x *c13Ctx) {
+	if x.scheme != "bgv" {
+		return
+	}
+	L := x.rp.MaxLevel()
+	t := int64(x.t)
+	mags := []int64{t, t + 1, 2*t + 3, 70000, 1 << 62, 3*t - 1, 1<<53 + 1, t - 1, 1<<62 + 12345}
+	for _, ctor := range []int{2, 1} {
+		for _, deg := range []int{0, 1, 2, 3, 6, 9, 17} {
+			need := 0
+			if deg >= 1 {
+				need = int(math.Ceil(math.Log2(float64(deg + 1))))
+			}
+			for rep := 0; rep < c.Scale(2, 4); rep++ {
+				cs := &c13Case{lazy: rep%2 == 0, level: need + c.rng.Intn(L-need+1), scale: x.sc(c), tscale: x.sc(c), x: x.randX(c), ctor: ctor}
+				np := 1
+				if rep%2 == 1 && deg >= 1 {
+					np = 2
+					cs.mapping = make([][]int, np)
+					for j := 0; j < x.slots; j++ {
+						if k := c.rng.Intn(np + 1); k < np {
+							cs.mapping[k] = append(cs.mapping[k], j)
+						}
+					}
+				}
+				for i := 0; i < np; i++ {
+					p := make([]int64, deg+1)
+					for k := range p {
+						m := mags[(k+rep+i+c.rng.Intn(3))%len(mags)]
+						if ctor == 2 && (k+i+rep)%2 == 0 {
+							m = -m
+						}
+						p[k] = m
+					}
+					if ctor == 1 {
+						u := c13U64(p)
+						if deg >= 1 {
+							u[1] = ^uint64(0) - c.rng.Below(3)
+						}
+						u[0] = 1<<63 + c.rng.Below(1<<40)
+						for k := range u {
+							p[k] = int64(u[k] % x.t)
+						}
+						cs.rawU = append(cs.rawU, u)
+					}
+					cs.polys = append(cs.polys, p)
+				}
+				c.Count(fmt.Sprintf("intcoeffs:ctor%d", ctor))
+				x.runCase(c, cs)
 			}
 		}
 	}
